@@ -6,7 +6,7 @@ CONSTANTS
   SubIds = {}
   ItemIds = {}
   Devs = {"write-ignores-access"}
-  LevelSet = {"missing", "wrong", "0", "1", "2", "3", "7"}
+  LevelSet = {"missing", "wrong", "null", "0", "1", "2", "3", "7"}
 INIT Init
 NEXT Next
 INVARIANT InvSessionRequired
